@@ -23,7 +23,10 @@ pub struct Corr {
     /// 13 zero coefficient appended to the last layer of the *commitment* (fri_verify called directly),
     /// 14 top coefficient dropped from the commitment's last layer, 15 last layer doubled with zeros,
     /// 16 only a prefix of the queries answered (values, points and witness built for the prefix),
-    /// 17 last input value dropped, 18 last query point dropped
+    /// 17 last input value dropped, 18 last query point dropped,
+    /// 19 one sibling leaf of a queried coset of layer L altered AND layer L's commitment replaced by the
+    ///    root of the altered table (a committed layer that is not the fold of the previous one at one
+    ///    coset; every Merkle check passes, only the fold into the next / last layer can object)
     pub kind: u8,
     pub a: u16,
     pub b: u16,
@@ -44,7 +47,7 @@ fn pick(sel: u16, len: u64) -> u64 {
 pub fn strategy(budget: u32) -> impl Strategy<Value = Case> {
     (
         inst_strategy(budget),
-        proptest::collection::vec((0u8..19, any::<u16>(), any::<u16>()).prop_map(|(kind, a, b)| Corr { kind, a, b }), 1..10),
+        proptest::collection::vec((0u8..20, any::<u16>(), any::<u16>()).prop_map(|(kind, a, b)| Corr { kind, a, b }), 1..10),
         prop_oneof![4 => Just(None), 1 => any::<u16>().prop_map(Some)],
     )
         .prop_map(|(mut inst, corrs, high)| {
@@ -58,7 +61,7 @@ pub fn strategy(budget: u32) -> impl Strategy<Value = Case> {
         })
 }
 
-const KINDS: [&str; 19] = [
+const KINDS: [&str; 20] = [
     "input_value",
     "query_point",
     "sibling_leaf",
@@ -78,6 +81,7 @@ const KINDS: [&str; 19] = [
     "only_prefix_of_queries_answered",
     "input_value_dropped",
     "query_point_dropped",
+    "recommitted_layer_with_altered_coset",
 ];
 
 /// returns Vec of (class, fingerprint-key, accepted?) or a panic-as-rejection; Err(fail) on harness-level problems
@@ -270,6 +274,50 @@ pub fn check(case: &Case) -> Outcome {
             18 => {
                 dec.points.pop();
             }
+            19 => {
+                // cosets of this layer that are opened, and the positions inside them that are sibling leaves
+                let s_l = p.steps[layer + 1];
+                let m = 1u64 << s_l;
+                let lq = &open.layer_queries[layer];
+                let cosets = &open.layer_queries[layer + 1];
+                let ci = pick(c.b, cosets.len() as u64) as usize;
+                let coset = cosets[ci];
+                let sibs: Vec<u64> = (0..m).map(|j| coset * m + j).filter(|i| lq.binary_search(i).is_err()).collect();
+                if sibs.is_empty() {
+                    continue;
+                }
+                let cell = sibs[pick(c.a.rotate_left(7), sibs.len() as u64) as usize];
+                // position of that sibling in the witness' leaf list (cosets in order, siblings in order)
+                let mut pos = 0usize;
+                for cc in cosets.iter() {
+                    for j in 0..m {
+                        let i = cc * m + j;
+                        if lq.binary_search(&i).is_err() {
+                            if i == cell {
+                                break;
+                            }
+                            pos += 1;
+                        }
+                    }
+                    if *cc == coset {
+                        break;
+                    }
+                }
+                let t = &fi.tables[layer];
+                let mut cells = t.cells.clone();
+                cells[cell as usize] += delta;
+                let t2 = Table::build(fi.kind, p.nvf, t.tree.height, t.cols, cells);
+                let new_root = t2.tree.root();
+                let leaves = &mut w.layers[layer].leaves;
+                if pos >= leaves.len() || leaves[pos] != t.cells[cell as usize] {
+                    return Outcome::failed("corrupt/recommitted_layer", f, "c07:harness_sibling_position", "harness: sibling position bookkeeping is off");
+                }
+                leaves[pos] += delta;
+                post = Some(Box::new(move |cm: &mut Commitment| {
+                    cm.inner_layers[layer].vector_commitment.commitment_hash = new_root;
+                }));
+                detail = format!("/layer{}of{}/{}", layer, n_inner, if ci == 0 { "lowest_coset" } else { "other_coset" });
+            }
             _ => unreachable!(),
         }
         any = true;
@@ -320,4 +368,4 @@ pub fn replay(_ctx: &Ctx, v: &Value) -> Result<Outcome, String> {
     Ok(check(&c))
 }
 
-pub const RULE: &str = "proptest-generated honest FRI instances (as C06) each with 1..9 independent single corruptions out of 19 kinds (only a prefix of the queries answered with a witness built for that prefix, last input value / query point dropped, commitment's last layer with a zero appended / top dropped / doubled, input value, read query point, sibling leaf, inner authentication node, inner commitment after/before the commit phase, folding challenge, last-layer coefficient, last-layer length +1/-1, declared bound +1, dropped sibling leaf, dropped authentication node), each applied alone to a fresh copy and required to be not accepted; 20% of cases are high-degree instances (degree in [bound, domain), honestly folded, last layer truncated, >= 24 queries) that must be rejected. Non-trivial = at least one corruption applicable; class histogram by kind x layer x step; distinct by case hash per hash build. polynomial shapes: PRF full degree, or vanishing at the first queried point (the zero, constant, monomial and all-queries-vanishing shapes are left to C06: a coset of zeros folds to zero whatever the challenge, which would make some corruptions unobservable by design)";
+pub const RULE: &str = "proptest-generated honest FRI instances (as C06) each with 1..9 independent single corruptions out of 20 kinds (a layer re-committed with one sibling leaf of an opened coset altered — all Merkle checks pass, only the fold can object; only a prefix of the queries answered with a witness built for that prefix, last input value / query point dropped, commitment's last layer with a zero appended / top dropped / doubled, input value, read query point, sibling leaf, inner authentication node, inner commitment after/before the commit phase, folding challenge, last-layer coefficient, last-layer length +1/-1, declared bound +1, dropped sibling leaf, dropped authentication node), each applied alone to a fresh copy and required to be not accepted; 20% of cases are high-degree instances (degree in [bound, domain), honestly folded, last layer truncated, >= 24 queries) that must be rejected. Non-trivial = at least one corruption applicable; class histogram by kind x layer x step; distinct by case hash per hash build. polynomial shapes: PRF full degree, or vanishing at the first queried point (the zero, constant, monomial and all-queries-vanishing shapes are left to C06: a coset of zeros folds to zero whatever the challenge, which would make some corruptions unobservable by design)";
